@@ -243,10 +243,14 @@ def run_shards(pid, tier, seed, nshards, budget, timeout, replay_file=None):
 
 
 def load_known():
+    import glob
+    out = []
     path = os.path.join(VERIF, 'known_findings.json')
-    if not os.path.exists(path):
-        return []
-    return json.load(open(path))['findings']
+    if os.path.exists(path):
+        out.extend(json.load(open(path))['findings'])
+    for extra in sorted(glob.glob(os.path.join(VERIF, 'known_findings.d', '*.json'))):
+        out.extend(json.load(open(extra))['findings'])
+    return out
 
 
 def classify(w, known):
